@@ -11,6 +11,7 @@ import PasfmtModel.Proofs.MachineCover
 import PasfmtModel.Proofs.Tree
 import PasfmtModel.Proofs.LexShape
 import PasfmtModel.Model.Cursor
+import PasfmtModel.Proofs.LexTotal
 
 namespace Pasfmt.C04
 
@@ -29,6 +30,11 @@ theorem passesGo_length (f n : Nat) (t : DTree) : (passesGo f n t).length ≤ n 
     the real `PassIter` on every case, so an exponential `PassIter` would break the correspondence) -/
 theorem passes_linear (kinds : List RawKind) : (passes kinds).length ≤ kinds.length + 2 := by
   unfold passes; exact passesGo_length _ _ _
+
+/-- the scanner terminates with a token list on every input: the directive scanner's fuel suffices,
+    every token consumes at least one byte (an unterminated comment is never empty because the
+    trailing blanks it drops never reach its first byte) and stays inside the text -/
+theorem lex_never_fails (simd : Bool) (s : Bytes) : ∃ toks, lexWith simd s = some toks := lexWith_total simd s
 
 /-- a pass never contains more tokens than the file -/
 theorem lex_token_count (s : Bytes) (toks : List RawTok) (h : lex s = some toks) :
